@@ -1043,11 +1043,15 @@ func runC04(c *Ctx) {
 		"merger/pass (NewMerger/PassMerger with random probe sequences vs MergerModel and the spec order), slices, sort, scan (Matcher.scan with 1..32 partitions, --tail snapshots) and proc (fzf -f stdout sequence) vs RankSpec.results; " +
 		"non-trivial = at least two matches / two non-empty lists / a valid offset with a tiebreak criterion; distinct by JSON of the case"
 	if c.Replay != "" {
+		if replaySearchSequence(c) {
+			return
+		}
 		if cs, ok := c04Load(c.Replay); ok {
 			c04Check(c, cs)
 		}
 		return
 	}
+	searchSequenceStream(c, 150, 3000) // default scheme: must run before the per-scheme passes
 	// the corpus may contain cases of any scheme: order them default, history, path
 	corpus := []c04Case{}
 	for _, f := range corpusFiles(c) {
